@@ -25,7 +25,7 @@ INT32_MAX = 2 ** 31 - 1
 
 nontrivial_rule(PROP, "Non-trivial: the history exports >= 2 geometries successfully, or has a failed call that is followed by a "
                       "successful one, or exports a mesh with mixed element types, or re-imports >= 1 variable and >= 1 set on a "
-                      "mesh of >= 2 elements.")
+                      "mesh of >= 2 elements, or filters by a set of >= 20 members on a mesh with sparse ids and non-members.")
 assumptions(PROP, [
     "a valid mesh frame is a DataFrame with a unique (element_id, node_id) MultiIndex (pylife.mesh.Mesh contract), columns x, y "
     "and optionally z, finite coordinates that are equal in all rows of one node, and element node counts from the exporter's "
@@ -200,7 +200,7 @@ def _run(case, ctx, check="every"):
                 stats["failed_then_ok"] = True
             if check == "every" or k == len(ops) - 1 or failed:
                 _verify(k, op, failed, path, model, infos, frames, ctx, stats, VMAPImport)
-        if stats["ok_geoms"] >= 2 or stats["failed_then_ok"] or stats["mixed_ok"] or stats["rich"]:
+        if stats["ok_geoms"] >= 2 or stats["failed_then_ok"] or stats["mixed_ok"] or stats["rich"] or stats.get("sparse"):
             ctx.nontrivial()
     finally:
         shutil.rmtree(tmp, ignore_errors=True)
@@ -244,6 +244,8 @@ def _step(k, op, ex, model, meshes, infos, frames, ctx, stats, api):
             ctx.label("mesh:%dD" % info.dim + ("" if info.has_z else ":no_z"))
             if info.mixed:
                 ctx.label("mesh:mixed_types")
+                if info.valid and sum(info.counts) == len(info.counts) * info.counts[0]:
+                    ctx.label("mesh:mixed_mean_count_equals_first")
             if not info.contiguous:
                 ctx.label("mesh:interleaved_rows")
             if any(c in QUADRATIC for c in info.counts) and info.valid:
@@ -257,7 +259,7 @@ def _step(k, op, ex, model, meshes, infos, frames, ctx, stats, api):
             _expect_failure(k, op, exc, (KeyError,), "duplicate geometry name", ctx)
             return True
         if not info.valid:
-            ctx.label("op:geom_invalid")
+            ctx.label("op:geom_invalid", "geomfail:" + info.why.replace(" ", "_"))
             if (exc is None and was_sticky and info.is_frame and info.dim == 2 and info.counts
                     and info.why.startswith("unsupported node count") and all(c in SUPPORTED[3] for c in info.counts)):
                 # the other face of F11c: the exporter still believes "3D" and types the flat elements as solids
@@ -562,6 +564,10 @@ def _verify_geometry(where, imp, g, entry, info, frame, model, ctx, stats):
             got = (m.filter_node_set(name) if typ == "n" else m.filter_element_set(name)).to_frame()
             keep = np.isin(exp_n if typ == "n" else exp_e, np.array(ids, dtype=np.int64))
             _cmp_index(got.index, exp_e[keep], exp_n[keep], "%s: filter_%s_set(%r) on %r" % (where, "node" if typ == "n" else "element", name, g))
+            uniq = set(ids)
+            if len(uniq) >= 20 and not keep.all() and max(uniq) - min(uniq) > 6 * (len(keep) + len(ids)):
+                ctx.label("sets:medium_on_sparse_ids")
+                stats["sparse"] = True
     shared = sorted(set(by_type["n"]) & set(by_type["e"]))
     if shared:
         # a node set and an element set with the same name: both filters through ONE held importer, in both orders
@@ -632,13 +638,24 @@ def _ids(draw, n, style):
     return draw(st.lists(st.integers(lo, hi), min_size=n, max_size=n, unique=True))
 
 
+_BALANCED = {2: [(6, [4, 8]), (4, [3, 3, 6]), (6, [4, 8, 6])],
+             3: [(6, [4, 8]), (8, [6, 10]), (15, [10, 20]), (6, [4, 4, 10]), (8, [6, 10, 8])]}
+
+
 @st.composite
 def _mesh(draw, tier, max_elements=None, broken=None):
     dim = draw(st.sampled_from([2, 2, 3]))
     types = SUPPORTED[dim]
     nmax = max_elements or (4 if tier == "quick" else 8)
     nel = draw(st.sampled_from([1] + list(range(2, nmax + 1)) * 2))
-    if draw(st.integers(0, 9)) < 4 and nel >= 2:
+    balanced = None
+    if draw(st.integers(0, 9)) < 4 and nel >= 2 and draw(st.integers(0, 2)) == 2:
+        # mixed types whose mean node count equals the count of the element with the lowest id
+        # (a reader that infers "one element type" from the total row count is wrong here)
+        balanced = draw(st.sampled_from(_BALANCED[dim]))
+        counts = [balanced[0]] + list(draw(st.permutations(balanced[1])))
+        nel = len(counts)
+    elif draw(st.integers(0, 9)) < 4 and nel >= 2:
         pool_t = draw(st.lists(st.sampled_from(types), min_size=2, max_size=3, unique=True))
         counts = [pool_t[i] if i < len(pool_t) else draw(st.sampled_from(pool_t)) for i in range(nel)]
     else:
@@ -653,6 +670,9 @@ def _mesh(draw, tier, max_elements=None, broken=None):
     nodes = _ids(draw, npool, "above" if above_where == "node" else ("large" if id_style == "above" else id_style))
     eids = _ids(draw, nel, "above" if above_where == "element" else ("small" if id_style == "above" else
                                                                   draw(st.sampled_from([id_style, "small", "gaps"]))))
+    if balanced is not None and broken != "count":
+        k = eids.index(min(eids))
+        eids[0], eids[k] = eids[k], eids[0]          # the element with the lowest id has the mean node count
     conn = []
     for c in counts:
         perm = draw(st.permutations(nodes))
@@ -947,4 +967,83 @@ def rollback(case, ctx):
           doc="one mesh (all element types, mixed, id classes, row orders, float classes) with 1-5 variables and 0-3 sets: exact "
               "round trip, checked after the last call")
 def mesh_roundtrip(case, ctx):
+    _run(case, ctx, "end")
+
+
+# ----------------------------------------------------------------------------------------------- sparse ids, medium sets
+def _spread(n, base, step):
+    """n strictly increasing ids with irregular gaps of about ``step``."""
+    return [base + k * step + (k * k) % step for k in range(n)]
+
+
+def _scramble(draw, seq):
+    """A cheap drawn permutation (affine map on the positions) - two draws instead of len(seq)."""
+    n = len(seq)
+    mult = [a for a in (1, 3, 7, 11, 13, 17, 19, 23, 29) if np.gcd(a, n) == 1]
+    a, b = draw(st.sampled_from(mult)), draw(st.integers(0, n - 1))
+    return [seq[(a * j + b) % n] for j in range(n)]
+
+
+@st.composite
+def _sparse(draw, tier):
+    """A mesh of 80-320 rows with widely spread ids and shared nodes, and node / element sets of a few dozen members."""
+    dim = draw(st.sampled_from([2, 3]))
+    many = draw(st.booleans())
+    if many:
+        c = draw(st.sampled_from([3, 4] if dim == 2 else [4, 6]))
+        nel = draw(st.integers(30, 48 if tier == "quick" else 90))
+    else:
+        c = draw(st.sampled_from([8, 6] if dim == 2 else [10, 15, 20]))
+        nel = draw(st.integers(8, 16 if tier == "quick" else 40))
+    total = nel * c
+    npool = draw(st.integers(max(c + 1, total // 3), max(c + 2, (2 * total) // 3)))
+    step = draw(st.sampled_from([211, 1009, 40009]))
+    hi = INT32_MAX - (max(npool, nel) + 2) * step
+    base = draw(st.sampled_from([draw(st.integers(1, 5000)), hi - draw(st.integers(0, 5000))]))
+    pool = _scramble(draw, _spread(npool, base, step))
+    estep = draw(st.sampled_from([1, 211, 1009, 40009]))
+    ebase = draw(st.integers(1, 5000)) if estep == 1 else draw(st.sampled_from([draw(st.integers(1, 5000)), hi - draw(st.integers(0, 5000))]))
+    eids = _scramble(draw, _spread(nel, ebase, estep) if estep > 1 else list(range(ebase, ebase + nel)))
+    rows = []
+    for e in eids:
+        start = draw(st.integers(0, npool - 1))
+        rows.extend([e, pool[(start + j) % npool]] for j in range(c))
+    used = set(n for _, n in rows)
+    nodes = [n for n in pool if n in used]
+    nn = len(nodes)
+    xs, ys = draw(_values(nn, _SPECIAL_FINITE)), draw(_values(nn, _SPECIAL_FINITE))
+    if dim == 3:
+        zs = draw(_values(nn, _SPECIAL_FINITE))
+        if all(z == zs[0] for z in zs):
+            zs[-1] = 1.0 if zs[0] == 0 else 0.0
+    else:
+        zs = [0.0] * nn
+    ms = {"rows": rows, "nodes": nodes, "cols": ["x", "y", "z"], "xyz": [[xs[i], ys[i], zs[i]] for i in range(nn)],
+          "nf": {"T": draw(_values(nn, _SPECIAL_ANY))}, "ef": {"a": draw(_values(len(rows), _SPECIAL_ANY))}}
+    ops = [{"op": "geom", "name": "1", "mesh": 0}]
+    if draw(st.booleans()):
+        ops.append({"op": "var", "state": "STATE-1", "geom": "1", "name": "TEMP", "columns": ["T"], "location": "NODE", "mesh": 0})
+    names = {"n": [], "e": []}
+    for k in range(draw(st.integers(2, 4))):
+        typ = draw(st.sampled_from(["n", "n", "e"])) if many else "n"
+        members = sorted(used) if typ == "n" else sorted(eids)
+        stride = draw(st.sampled_from([1, 2, 3]))
+        cand = members[draw(st.integers(0, stride - 1))::stride]
+        lo = min(24, len(cand))
+        count = draw(st.integers(lo, max(lo, min(60, len(cand), len(members) - 3))))
+        first = draw(st.integers(0, len(cand) - count))
+        ids = _scramble(draw, cand[first:first + count])
+        other = [n for n in names["e" if typ == "n" else "n"] if n not in names[typ]]
+        name = draw(st.sampled_from(other)) if other and draw(st.integers(0, 2)) == 2 else "S%d" % k
+        names[typ].append(name)
+        ops.append({"op": "set", "geom": "1", "type": typ, "ids": ids, "name": name, "mesh": 0})
+    if draw(st.booleans()):
+        ops.append({"op": "var", "state": "STATE-1", "geom": "1", "name": "V", "columns": ["a"], "location": "ELEMENT_NODAL", "mesh": 0})
+    return {"meshes": [ms], "ops": ops}
+
+
+@subcheck(PROP, "sparse_sets", strategy=_sparse, quick=64, thorough=2000, crash_guard=True,
+          doc="a mesh of 80-320 rows with widely spread node / element ids and shared nodes, node and element sets of 24-60 members "
+              "(every, every second or every third id, stored in scrambled order): filter_*_set returns exactly the members' rows")
+def sparse_sets(case, ctx):
     _run(case, ctx, "end")
